@@ -24,7 +24,10 @@ Lemma pinv_exit : forall sh sh' (fl : bool) s, PInv sh s ->
   PInv sh' (if fl then pg_rollback sh s else let s2 := pg_commit s in if g_reg s2 then pg_close sh false s2 else s2).
 Proof. intros sh sh' fl. destruct sh, sh', fl; pcrunch. Qed.
 Lemma pinv_idle : forall sh sh' s, g_reg s = false -> PInv sh s -> PInv sh' s.
-Proof. intros sh sh'. destruct sh, sh'; intros [h a d r i x b tr] Hr; cbn in Hr; subst r; pcrunch. Qed.
+Proof.
+  intros sh sh' s Hr [Hi Hw]. split; auto. destruct s as [h a d r i x b tr]. cbn in Hr. subst r.
+  unfold pinv in *. cbn in *. destruct sh, sh', h, a, d, i, x, b; cbn in *; auto.
+Qed.
 Lemma pinv_session : forall sh' x s, PInv (fst (fst x)) s -> PInv sh' (pg_session s x).
 Proof. intros sh' [[sh body] fl] s H. unfold pg_session. apply pinv_exit. apply pinv_body. exact H. Qed.
 
